@@ -347,15 +347,34 @@ var c06Delays = []time.Duration{time.Second, 5 * time.Second, time.Minute, 5 * t
 
 func c06Faults(r *zsim.Run) {
 	o, f := r.Ops, r.Fault
-	e := c06Setup(r, 1, time.Hour*24, 10*time.Second)
+	nodes := 1 + o.Intn(2)
+	e := c06Setup(r, nodes, time.Hour*24, 10*time.Second)
 	defer e.close()
-	srv := e.srvs[0]
 	id := 1
 	key := pkKey(id)
 	e.db[id] = 1
 	// the key is cached
 	if row, err := e.queryPK(id, 0); !e.checkRead("warm-up", row, err, id) {
 		return
+	}
+	srv := e.holder(key)
+	if srv == nil {
+		r.Failf("harness-placement", "the warmed-up key is on no node")
+		return
+	}
+	// on a cluster: a second key that lives on another node and is named by the same write
+	otherID, otherKey := 0, ""
+	var otherSrv *zredis.Server
+	if nodes > 1 {
+		for cand := 2; cand < 40 && otherSrv == nil; cand++ {
+			e.db[cand] = 1
+			if row, err := e.queryPK(cand, 0); !e.checkRead("warm-up", row, err, cand) {
+				return
+			}
+			if h := e.holder(pkKey(cand)); h != nil && h != srv {
+				otherID, otherKey, otherSrv = cand, pkKey(cand), h
+			}
+		}
 	}
 	kind := f.Intn(4) // 0 error replies, 1 refused dials, 2 reset before delivery (transient), 3 lost reply (transient)
 	r.Logf("faults kind=%d", kind)
@@ -407,8 +426,23 @@ func c06Faults(r *zsim.Run) {
 		srv.DropReply = 8
 	}
 	t0 := r.Now()
-	_, err := e.cc.Exec(func(sqlx.Conn) (sql.Result, error) { e.db[id] = 2; return nil, nil }, key)
+	keys := []string{key}
+	if otherSrv != nil {
+		keys = append(keys, otherKey)
+		r.Probe("multi_node_delete")
+	}
+	_, err := e.cc.Exec(func(sqlx.Conn) (sql.Result, error) {
+		e.db[id] = 2
+		if otherID != 0 {
+			e.db[otherID] = 2
+		}
+		return nil, nil
+	}, keys...)
 	stillCached := srv.M.Exists(key)
+	if otherSrv != nil && otherSrv.M.Exists(otherKey) {
+		r.Failf("healthy-node-key-not-deleted", "the write named keys on two cache nodes; the node holding %s is healthy but the key is still cached after Exec returned", otherKey)
+		return
+	}
 	r.Logf("exec with failing delete -> %v (key still cached: %v), fault for %v", err, stillCached, faultFor)
 	r.NonTrivial()
 	if err != nil {
